@@ -4,6 +4,7 @@ package main
 
 import (
 	"fmt"
+	"os"
 	"go/types"
 	"strings"
 
@@ -20,7 +21,7 @@ func (x *Exec) intercept(st *State, fn *ssa.Function, args []*Term) ([]Outcome, 
 	c := x.c
 	ret := func(v *Term) ([]Outcome, bool) { return []Outcome{{st: st, kind: ORet, val: v}}, true }
 	switch o.Name() {
-	case "P2", "P3", "P4":
+	case "P2", "P3", "P4", "Do":
 		return nil, false // executable helpers: run their bodies
 	case "W":
 		// W[T](x): x tagged with its static type T (kept even when T is an interface type)
@@ -37,6 +38,12 @@ func (x *Exec) intercept(st *State, fn *ssa.Function, args []*Term) ([]Outcome, 
 			return ret(c.False)
 		}
 		return ret(c.Eq(a, b))
+	case "SameArray":
+		a, b := x.unboxAny(args[0]), x.unboxAny(args[1])
+		if a.Sort != c.Slice || b.Sort != c.Slice {
+			return abortOut(st, "SameArray needs slices"), true
+		}
+		return ret(c.Eq(c.Sel(a, 0), c.Sel(b, 0)))
 	case "Forall", "Exists":
 		v, err := x.quantifier(st, args[0], o.Name() == "Forall")
 		if err != nil {
@@ -70,6 +77,9 @@ func (x *Exec) intercept(st *State, fn *ssa.Function, args []*Term) ([]Outcome, 
 		var disj []*Term
 		for _, o := range outs {
 			extra := c.And(o.st.pc[len(st.pc):]...)
+			if os.Getenv("GOVC_DEBUG") != "" {
+				fmt.Fprintf(os.Stderr, "Panics outcome kind=%d extra=%s reason=%s\n", o.kind, c.Show(extra), o.reason)
+			}
 			switch o.kind {
 			case OPanic:
 				disj = append(disj, extra)
